@@ -50,9 +50,36 @@ def register(R):
                   f'{COORD}.set_s3_request', f'{MGR}._release_semaphore', f'{ARGS}.get_crt_callback', f'{RTH}.__init__',
                   f'{CRT}:OnBodyFileObjWriter.__init__', f'{MGR}._cancel_transfers', f'{MGR}._finish_transfers',
                   f'{MGR}._wait_transfers_done')
-    R.contract(f'{ARGS}.get_make_request_args',
-               params=dict(request_type=Str, call_args=Any, coordinator=Any, future=Any, on_done_after_calls=Any),
-               returns=ExtT('crt_callargs'), raise_when={'Exception': lambda c: None})
+    # get_make_request_args: dispatches to the per-operation builder with a FRESH, empty before-list for this request
+    # (a list shared between requests would run one transfer's rename / cleanup handlers for another transfer) and
+    # the caller's after-list
+    def gmra_checks(c):
+        hs = [e for e in c.trace if e.kind == 'call' and ('_get_make_request_args_' in e.name or e.name.endswith('_default_get_make_request_args'))]
+        out = {'exactly_one_builder_called': B(len(hs) == 1)}
+        if len(hs) == 1:
+            env = hs[0].extra['env']
+            before = env.get('on_done_before_calls')
+            fresh = isinstance(before, Ref) and before.oid not in c.old.st.heap and hs[0].extra['pre'].obj(before).kind == 'list' \
+                and len(hs[0].extra['pre'].obj(before).items) == 0
+            out['before_list_is_fresh_and_empty_for_this_request'] = B(bool(fresh))
+            out['after_list_and_identities_passed_through'] = B(
+                env.get('on_done_after_calls') is c.a_on_done_after_calls and env.get('call_args') is c.a_call_args
+                and env.get('coordinator') is c.a_coordinator and env.get('future') is c.a_future)
+            want = {'get_object': '_get_make_request_args_get_object', 'put_object': '_get_make_request_args_put_object'}.get(
+                c.a_request_type, '_default_get_make_request_args')
+            out['builder_matches_the_request_type'] = B(hs[0].name.endswith(want))
+            out['returns_what_the_builder_returned'] = B(c.result is hs[0].result)
+        return out
+
+    BUILDER_PARAMS = dict(request_type=Str, call_args=Any, coordinator=Any, future=Any, on_done_before_calls=Any, on_done_after_calls=Any)
+    R.contract(f'{ARGS}._get_make_request_args_put_object', params=dict(BUILDER_PARAMS), returns=ExtT('crt_callargs'),
+               raise_when={'Exception': lambda c: None})
+    R.contract(f'{ARGS}.get_make_request_args', props=['C20', 'C06'],
+               params=dict(request_type=Str, call_args=ExtT('call_args'), coordinator=ExtT('crt_coordinator'), future=ExtT('crt_future'),
+                           on_done_after_calls=ExtT('after_list')),
+               param_alternatives={'request_type': [('get_object', Const('get_object')), ('put_object', Const('put_object')),
+                                                    ('delete_object', Const('delete_object'))]},
+               checks=gmra_checks, returns=ExtT('crt_callargs'), raises={'Exception': lambda c: {}}, raise_when={'Exception': lambda c: None})
 
     # ------------------------------------------------------------------ _submit_transfer
     def ev_names(tr):
